@@ -88,7 +88,9 @@ Matrix Round(const Matrix& matrix, unsigned int digits)
 
 double Relative_Difference(double a, double b)
 {
-	double d   = std::fabs(a - b);
+	double d = std::fabs(a - b);
+	if(d == 0.0)   // equal arguments (in particular a = b = 0, where d / max would be 0/0)
+		return 0.0;
 	double max = std::max(fabs(a), fabs(b));
 	return d / max;
 }
